@@ -112,9 +112,11 @@ def run(ctx):
         if v.rule in ("insert", "remove", "exit-invariant", "state-machine", "typestate-anchor"):
             ctx.bad("ts-" + v.rule, v.key, v.where, v.what)
     # insertion sites are NOT control-dependent on the flag (limit orders rest either way)
-    for f in (place, m.book_fn("modify_order")):
-        q = m.ov(f)
+    for (f, q) in [(f_, m.sv(f_, S_)) for f_ in (place, m.book_fn("modify_order")) for S_ in ("Bid", "Ask")]:
+        live = q.cfg.reach_from(0)
         for (c, side) in m.side_op_calls(q, "insert_order"):
+            if c.b not in live:
+                continue
             ctx.check(not trading_true(m, c.guards) and not trading_false(m, c.guards), "rest", "%s|%s" % (f.short(), side), c.loc(),
                       "the %s-side insertion does not depend on the trading flag (orders rest with trading on or off)" % side,
                       "the %s-side insertion is conditional on the trading flag: [%s]" % (side, c.gtext()))
